@@ -350,7 +350,7 @@ class Tdf:
             ValueError: block limit reached (14 as per BTS's implementation)
             IOError: unused empty blocks in the middle of the file
         """
-        if self._mode == "rb":
+        if self._mode == "rb" or not self.handler.writable():
             raise PermissionError(
                 "Can't add blocks, this file was opened in read-only mode"
             )
@@ -434,7 +434,7 @@ class Tdf:
           block_to_remove.size up
 
         """
-        if "+" not in self._mode:
+        if "+" not in self._mode or not self.handler.writable():
             raise PermissionError(
                 "Can't remove blocks, this file was opened in read-only mode"
             )
